@@ -5,10 +5,11 @@ import Driver.IBM
 import Driver.Gen
 import Driver.Release
 import Driver.Post
+import Driver.Grid
 open Driver
 
 def allHandlers : List (String × Handler) :=
-  chemHandlers ++ ibmHandlers ++ genHandlers ++ releaseHandlers ++ postHandlers
+  chemHandlers ++ ibmHandlers ++ genHandlers ++ releaseHandlers ++ postHandlers ++ gridHandlers
 
 def table : Std.HashMap String Handler := Std.HashMap.ofList allHandlers
 
